@@ -78,6 +78,48 @@ KNOWN_WIDTHS = {"U64", "U128", "U192", "U256", "U512", "U1024", "U2048"}
 SAFEGCD_WIDTHS = {"U64", "U128", "U192", "U256", "U512", "U1024", "U2048"}
 POW_WIDTHS = {"U64", "U128", "U256", "U512"}
 
+INT_WIDTHS = [("I64", 1), ("I128", 2), ("I256", 4), ("I512", 8)]
+INT_OPS = [
+    ("int_wrapping_add", "a: &T, b: &T, out: &mut T", "*out = a.wrapping_add(b);", {}),
+    ("int_wrapping_sub", "a: &T, b: &T, out: &mut T", "*out = a.wrapping_sub(b);", {}),
+    ("int_checked_mul", "a: &T, b: &T, out: &mut T, ok: &mut u8", "let r = a.checked_mul(b); *ok = Choice::from(r.is_some()).unwrap_u8(); *out = r.unwrap_or(T::ZERO);", {}),
+    ("int_wrapping_neg", "a: &T, out: &mut T", "*out = a.wrapping_neg();", {}),
+    ("int_abs", "a: &T, out: &mut U, neg: &mut u8", "let (m, s) = a.abs_sign(); *out = m; *neg = Choice::from(s).unwrap_u8();", {}),
+    ("int_shr", "a: &T, s: u32, out: &mut T", "*out = a.overflowing_shr(s).unwrap_or(T::ZERO);", {}),
+    ("int_shl", "a: &T, s: u32, out: &mut T", "*out = a.overflowing_shl(s).unwrap_or(T::ZERO);", {}),
+    ("int_cmp", "a: &T, b: &T) -> i8 {", "a.cmp(b) as i8", {}),
+    ("int_ct_lt", "a: &T, b: &T) -> u8 {", "a.ct_lt(b).unwrap_u8()", {}),
+    ("int_select", "a: &T, b: &T, c: u8, out: &mut T", "*out = T::conditional_select(a, b, Choice::from(c));", {}),
+    ("int_checked_div", "a: &T, b: &T, out: &mut T, ok: &mut u8", "let r = a.checked_div(b); *ok = r.is_some().unwrap_u8(); *out = r.unwrap_or(T::ZERO);", {}),
+]
+LIMB_OPS = [
+    ("limb_adc", "a: &Limb, b: &Limb, c: &Limb, out: &mut Limb, co: &mut Limb", "let (x, y) = a.adc(*b, *c); *out = x; *co = y;", {}),
+    ("limb_mac", "a: &Limb, b: &Limb, c: &Limb, d: &Limb, out: &mut Limb, co: &mut Limb", "let (x, y) = a.mac(*b, *c, *d); *out = x; *co = y;", {}),
+    ("limb_cmp", "a: &Limb, b: &Limb) -> i8 {", "a.cmp(b) as i8", {}),
+    ("limb_ct_lt", "a: &Limb, b: &Limb) -> u8 {", "a.ct_lt(b).unwrap_u8()", {}),
+    ("limb_select", "a: &Limb, b: &Limb, c: u8, out: &mut Limb", "*out = Limb::conditional_select(a, b, Choice::from(c));", {}),
+    ("limb_bits", "a: &Limb) -> u32 {", "a.bits()", {}),
+]
+# compile-time modulus (public by construction): P-256 field prime
+CONST_MONTY_PRELUDE = """
+crypto_bigint::impl_modulus!(CbvP256, U256, "ffffffff00000001000000000000000000000000ffffffffffffffffffffffff");
+type CbvFe = crypto_bigint::modular::ConstMontyForm<CbvP256, { U256::LIMBS }>;
+"""
+CONST_MONTY_OPS = [
+    ("cmf_new_retrieve", "a: &U256, out: &mut U256", "*out = CbvFe::new(a).retrieve();", {}),
+    ("cmf_mul", "a: &U256, b: &U256, out: &mut U256", "*out = *CbvFe::from_montgomery(*a).mul(&CbvFe::from_montgomery(*b)).as_montgomery();", {}),
+    ("cmf_square", "a: &U256, out: &mut U256", "*out = *CbvFe::from_montgomery(*a).square().as_montgomery();", {}),
+    ("cmf_add", "a: &U256, b: &U256, out: &mut U256", "*out = *CbvFe::from_montgomery(*a).add(&CbvFe::from_montgomery(*b)).as_montgomery();", {}),
+    ("cmf_sub", "a: &U256, b: &U256, out: &mut U256", "*out = *CbvFe::from_montgomery(*a).sub(&CbvFe::from_montgomery(*b)).as_montgomery();", {}),
+    ("cmf_neg", "a: &U256, out: &mut U256", "*out = *CbvFe::from_montgomery(*a).neg().as_montgomery();", {}),
+    ("cmf_pow", "a: &U256, e: &U256, out: &mut U256", "*out = *CbvFe::from_montgomery(*a).pow(e).as_montgomery();", {}),
+    ("cmf_div_by_2", "a: &U256, out: &mut U256", "*out = *CbvFe::from_montgomery(*a).div_by_2().as_montgomery();", {}),
+]
+CONST_MONTY_KNOWN = [
+    ("cmf_inv", "a: &U256, out: &mut U256", "*out = *subtle::CtOption::from(CbvFe::from_montgomery(*a).inv()).unwrap_or(CbvFe::ZERO).as_montgomery();", {},
+     "safegcd (known finding at MIR level)"),
+]
+
 BOXED_OPS = [
     ("boxed_add_mod", "a: &BoxedUint, b: &BoxedUint, p: &BoxedUint) -> BoxedUint {", "a.add_mod(b, p)", {}),
     ("boxed_sub_mod", "a: &BoxedUint, b: &BoxedUint, p: &BoxedUint) -> BoxedUint {", "a.sub_mod(b, p)", {}),
@@ -99,7 +141,8 @@ def gen_harness():
     out = ["#![allow(clippy::all, unused_imports, unused_variables)]",
            "use crypto_bigint::modular::{BoxedMontyForm, BoxedMontyParams, MontyForm, MontyParams};",
            "use crypto_bigint::*;",
-           "use subtle::{Choice, ConditionallySelectable, ConstantTimeEq, ConstantTimeGreater, ConstantTimeLess};", ""]
+           "use subtle::{Choice, ConditionallySelectable, ConstantTimeEq, ConstantTimeGreater, ConstantTimeLess};",
+           "use core::ops::{Add, Mul, Neg, Sub};", ""]
     table = {}
 
     def emit(wname, sig, body, shapes, known=None):
@@ -122,6 +165,21 @@ def gen_harness():
             if tname not in SAFEGCD_WIDTHS:
                 continue
             emit("w_%s_%s" % (tname.lower(), op), re.sub(r"\bT\b", tname, sig), re.sub(r"\bT\b", tname, body), shapes, why)
+    for tname, n in INT_WIDTHS:
+        uname = "U" + tname[1:]
+        for (op, sig, body, shapes) in INT_OPS:
+            s2 = re.sub(r"\bT\b", tname, sig)
+            s2 = re.sub(r"\bU\b", uname, s2)
+            b2 = re.sub(r"\bT\b", tname, body)
+            b2 = re.sub(r"\bU\b", uname, b2)
+            emit("w_%s_%s" % (tname.lower(), op), s2, b2, shapes)
+    for (op, sig, body, shapes) in LIMB_OPS:
+        emit("w_" + op, sig, body, shapes)
+    out.append(CONST_MONTY_PRELUDE)
+    for (op, sig, body, shapes) in CONST_MONTY_OPS:
+        emit("w_" + op, sig, body, shapes)
+    for (op, sig, body, shapes, why) in CONST_MONTY_KNOWN:
+        emit("w_" + op, sig, body, shapes, why)
     for (op, sig, body, shapes) in BOXED_OPS:
         emit("w_" + op, sig, body, shapes)
     for (op, sig, body, shapes, why) in BOXED_KNOWN:
@@ -218,6 +276,7 @@ def split_top(s):
 class Module:
     def __init__(self, paths):
         self.index = {}    # fn name -> (path, byte offset)
+        self.aliases = {}
         self.cache = {}
         self.declared = set()
         for p in paths:
@@ -228,10 +287,20 @@ class Module:
                         m = RE_DEFINE.match(line.decode("utf-8", "replace").rstrip("\n"))
                         if m:
                             self.index.setdefault(m.group(1).strip('"'), (p, off))
+                    elif line.startswith(b"@") and b" alias " in line:
+                        # identical functions merged by LLVM: `@a = [attrs] alias <ty>, ptr @b`
+                        am = re.match(r'^@(' + NAME + r')\s*=.*\balias\b.*@(' + NAME + r')\s*$',
+                                      line.decode("utf-8", "replace").rstrip("\n"))
+                        if am:
+                            self.aliases[am.group(1).strip('"')] = am.group(2).strip('"')
                     off += len(line)
 
     def get(self, name):
         name = name.strip('"')
+        hops = 0
+        while name not in self.index and name in self.aliases and hops < 4:
+            name = self.aliases[name]
+            hops += 1
         if name in self.cache:
             return self.cache[name]
         if name not in self.index:
@@ -374,6 +443,8 @@ class Analysis:
         f = module.get(wrapper)
         if f is None:
             raise RuntimeError("wrapper %s not found in IR" % wrapper)
+        wrapper = f.name          # the wrapper may be an alias of an identical (merged) function
+        self.w = wrapper
         # seed arguments
         ir_params = [p for p in f.params]
         # sret / out pointers come first in IR when the Rust fn returns an aggregate by memory
